@@ -51,7 +51,7 @@ function bindcheck(analyze, req) {
     if (o.inWith && o.ns === 'id') { inWith++; if (o.name !== t.orig) add('name-inside-with-renamed', t.orig, `printed as ${o.name}: ${around(o)}`); }
     if (o.raw >= 0 && o.ns === 'id') {
       const d = declById[o.raw];
-      if (d.evalVisible && !runtime) { evalPinned++; if (o.name !== t.orig) add('name-visible-to-direct-eval-renamed', t.orig, `printed as ${o.name}: ${around(o)}`); }
+      if (d.evalVisible && !runtime && !opts.skipEvalVisibleRule) { evalPinned++; if (o.name !== t.orig) add('name-visible-to-direct-eval-renamed', t.orig, `printed as ${o.name}: ${around(o)}`); }
       if (opts.pinnedTop && d.top && d.scopeKind === 'program' && !runtime) { topPinned++; if (o.name !== t.orig) add('top-level-name-of-unwrapped-file-renamed', t.orig, `printed as ${o.name}: ${around(o)}`); }
     }
   }
